@@ -4,9 +4,11 @@ import (
 	"bytes"
 	"context"
 	"encoding/binary"
+	"errors"
 	"fmt"
 	"sync"
 	"sync/atomic"
+	"time"
 
 	"github.com/nspcc-dev/neo-go/pkg/core/storage"
 	"pgregory.net/rapid"
@@ -28,6 +30,25 @@ type StressCase struct {
 	Rounds  int    `json:"rounds"`  // writer iterations
 	Spread  []int  `json:"spread"`  // where stable key i is committed: 0 = backend, j = layer j-1 (modulo)
 	Sync    bool   `json:"sync"`    // persister uses PersistSync on the bottom layer every other time
+	// FailEvery > 0: every FailEvery-th write of the backend fails (disk full, I/O error). The node logs a failed
+	// flush and goes on (Blockchain.Run), so the readers keep running against the layer whose flush failed: nothing
+	// may be lost, and nothing may crash.
+	FailEvery int `json:"fail_every,omitempty"`
+}
+
+// flakyStore fails every n-th PutChangeSet.
+type flakyStore struct {
+	storage.Store
+	every int
+	n     atomic.Int64
+}
+
+func (f *flakyStore) PutChangeSet(puts, stor map[string][]byte) error {
+	if f.every > 0 && f.n.Add(1)%int64(f.every) == 0 {
+		time.Sleep(300 * time.Microsecond) // an I/O error is not instant: readers start scans in the meantime
+		return errInjected
+	}
+	return f.Store.PutChangeSet(puts, stor)
 }
 
 func genStress(t *rapid.T) StressCase {
@@ -41,6 +62,9 @@ func genStress(t *rapid.T) StressCase {
 		Sync:    rapid.Bool().Draw(t, "sync"),
 	}
 	c.Spread = rapid.SliceOfN(rapid.IntRange(0, 3), c.Stable, c.Stable).Draw(t, "spread")
+	if rapid.IntRange(0, 2).Draw(t, "flaky") == 0 {
+		c.FailEvery = rapid.IntRange(2, 5).Draw(t, "fail_every")
+	}
 	return c
 }
 
@@ -67,6 +91,10 @@ func checkStress(c StressCase, o *vt.Obs) error {
 	defer rn.close()
 	var st []*storage.MemCachedStore
 	var low storage.Store = raw
+	if c.FailEvery > 0 {
+		low = &flakyStore{Store: raw, every: c.FailEvery}
+		o.Label("failing-flushes")
+	}
 	for i := 0; i < c.Layers; i++ {
 		s := storage.NewMemCachedStore(low)
 		st = append(st, s)
@@ -153,7 +181,7 @@ func checkStress(c StressCase, o *vt.Obs) error {
 				} else {
 					_, err = st[i].Persist()
 				}
-				if err != nil {
+				if err != nil && !(i == 0 && c.FailEvery > 0 && errors.Is(err, errInjected)) {
 					fail("Persist of layer %d: %v", i, err)
 					return
 				}
